@@ -11,6 +11,7 @@ package main
 
 import (
 	"fmt"
+	"hash/fnv"
 	"image"
 	"image/color"
 	"math"
@@ -344,7 +345,8 @@ type hist struct {
 	noCorr    string
 	failed    bool
 	aliasSeen map[string]bool
-	nonFinite bool // a layer with a NaN/Inf matrix exists (already reported as a failure): matrix oracles are off
+	verdicts  []string // "V" lines: raw replay observations judged by the Lean specification
+	nonFinite bool     // a layer with a NaN/Inf matrix exists (already reported as a failure): matrix oracles are off
 }
 
 func (h *hist) op(human string, toks ...string) {
@@ -571,6 +573,77 @@ func (h *hist) drawPath(n int) {
 	h.checkDraw("DrawPath", before, expect, ps)
 }
 
+// Fill / Stroke / FillStroke of a path built through the Context's own builder methods
+func (h *hist) fillStroke() {
+	c := h.c
+	p := &canvas.Path{}
+	x, y := c.GenCoord(), c.GenCoord()
+	h.ctx.MoveTo(x, y)
+	p.MoveTo(x, y)
+	desc := fmt.Sprintf("MoveTo(%s)", fmtF(x, y))
+	n := 1 + c.Intn(4)
+	for i := 0; i < n; i++ {
+		a, b, e, f, g, k := c.GenCoord(), c.GenCoord(), c.GenCoord(), c.GenCoord(), c.GenCoord(), c.GenCoord()
+		switch c.Intn(4) {
+		case 0, 1:
+			h.ctx.LineTo(a, b)
+			p.LineTo(a, b)
+			desc += fmt.Sprintf("; LineTo(%s)", fmtF(a, b))
+		case 2:
+			h.ctx.QuadTo(a, b, e, f)
+			p.QuadTo(a, b, e, f)
+			desc += fmt.Sprintf("; QuadTo(%s)", fmtF(a, b, e, f))
+		case 3:
+			h.ctx.CubeTo(a, b, e, f, g, k)
+			p.CubeTo(a, b, e, f, g, k)
+			desc += fmt.Sprintf("; CubeTo(%s)", fmtF(a, b, e, f, g, k))
+		}
+	}
+	if c.Chance(0.3) {
+		h.ctx.Close()
+		p.Close()
+		desc += "; Close()"
+	}
+	key := hc.DataHex(p.Data())
+	if _, ok := h.w.pathID[key]; !ok {
+		h.w.paths = append(h.w.paths, p)
+		h.w.pathID[key] = len(h.w.paths)
+	}
+	which := c.Intn(3)
+	tag, name := []string{"FL", "SK", "FS"}[which], []string{"Fill", "Stroke", "FillStroke"}[which]
+	h.op(desc+"; "+name+"()", tag, h.pathTok(p))
+	// documented: the path is drawn at (0,0) with the current state, without stroke paint (Fill) or
+	// without fill paint (Stroke); afterwards the style is what it was and the current path is empty
+	saved := h.st.style.clone()
+	switch which {
+	case 0:
+		h.st.style.Stroke = sPaint{}
+	case 1:
+		h.st.style.Fill = sPaint{}
+	}
+	var expect []sm
+	if h.st.style.Fill.has() || (h.st.style.Stroke.has() && 0 < h.st.style.Width) {
+		expect = []sm{h.base(0, 0)}
+		c.Count("draw:" + name)
+	} else {
+		c.Count("draw:" + name + "-invisible")
+	}
+	before := len(h.tee.calls)
+	switch which {
+	case 0:
+		h.ctx.Fill()
+	case 1:
+		h.ctx.Stroke()
+	case 2:
+		h.ctx.FillStroke()
+	}
+	h.checkDraw(name, before, expect, []*canvas.Path{p})
+	h.st.style = saved
+	if px, py := h.ctx.Pos(); px != 0 || py != 0 {
+		h.fail("fill-resets-path:"+name, fmt.Sprintf("after %s() the current path is not empty: Pos() = (%g,%g)", name, px, py))
+	}
+}
+
 func (h *hist) drawText() {
 	c := h.c
 	if len(h.w.texts) == 0 {
@@ -727,6 +800,18 @@ func (h *hist) replay(view canvas.Matrix) []call {
 // every layer moved by the transformations applied to the canvas since it was recorded
 func (h *hist) checkReplay(what string, view sm, got []call) bool {
 	h.c.Evals++
+	// raw observation for the Lean verdict: (z, fingerprint) of what was recorded, fingerprints of the replay
+	{
+		toks := []string{"V", fmt.Sprint(len(h.layers))}
+		for _, l := range h.layers {
+			toks = append(toks, fmt.Sprint(l.z), fingerprint(h.tee.calls[l.idx]))
+		}
+		toks = append(toks, fmt.Sprint(len(got)))
+		for _, g := range got {
+			toks = append(toks, fingerprint(g))
+		}
+		h.verdicts = append(h.verdicts, strings.Join(toks, " "))
+	}
 	want := stableByZ(h.layers)
 	if len(got) != len(want) {
 		h.fail("replay-count:"+what, fmt.Sprintf("%s: canvas replays %d operations, %d were recorded", what, len(got), len(want)))
@@ -760,6 +845,20 @@ func (h *hist) checkReplay(what string, view sm, got []call) bool {
 }
 
 // content of a replayed layer, sampled in its own coordinates (points that carry ink)
+// fingerprint of a renderer call without its matrix: object identity and style digest
+func fingerprint(k call) string {
+	f := fnv.New64a()
+	switch k.kind {
+	case 'P':
+		fmt.Fprintf(f, "P %d %s", k.id, styleTok(k.sty))
+	case 'T':
+		fmt.Fprintf(f, "T %d", k.id)
+	default:
+		fmt.Fprintf(f, "I %g %g", k.w, k.h)
+	}
+	return fmt.Sprint(f.Sum64() >> 1)
+}
+
 func (h *hist) content(k call) [][2]float64 {
 	var pts [][2]float64
 	switch k.kind {
@@ -800,7 +899,33 @@ func (h *hist) content(k call) [][2]float64 {
 
 func (h *hist) canvasOp() {
 	c := h.c
-	switch k := c.Intn(10); {
+	switch k := c.Intn(11); {
+	case k == 10:
+		// nested canvases: replay the canvas into a fresh one, which becomes the Context's target
+		m := ident
+		if c.Bool() {
+			m = genMat(c)
+		}
+		h.op(fmt.Sprintf("cv2 := New(W,H); cv.RenderViewTo(cv2, %v); continue on cv2", m), "CN", matTok(m))
+		W, H := h.cv.Size()
+		cv2 := canvas.New(W, H)
+		h.cv.RenderViewTo(cv2, canvas.Matrix(m))
+		h.cv, h.tee.cv = cv2, cv2
+		// documented: the recorded operations in ascending z, then drawing order, each moved by the view;
+		// the fresh canvas records all of them under its own z-index 0
+		nl := stableByZ(h.layers)
+		zs := map[int]bool{}
+		for _, l := range nl {
+			zs[l.z] = true
+		}
+		c.Count(fmt.Sprintf("nest:distinct-z-flattened:%d", len(zs)))
+		for i := range nl {
+			nl[i].z = 0
+			nl[i].pre = lift(m).mul(nl[i].pre)
+		}
+		h.layers, h.z = nl, 0
+		c.Count("canvas:nest")
+		h.checkReplay("nested RenderViewTo", sIdent, h.replay(canvas.Identity))
 	case k < 3:
 		m := genMat(c)
 		h.op(fmt.Sprintf("Canvas.Transform(%v)", m), "CT", matTok(m))
@@ -828,6 +953,9 @@ func (h *hist) canvasOp() {
 		margin := []float64{0, 1, 2.5, 10}[c.Intn(4)]
 		h.op(fmt.Sprintf("Canvas.Fit(%g)", margin), "CF", hc.H(margin))
 		before := h.replay(canvas.Identity)
+		if len(before) == 0 {
+			c.Count("fit:on-empty-canvas")
+		}
 		h.cv.Fit(margin)
 		after := h.replay(canvas.Identity)
 		c.Count("canvas:fit")
@@ -1157,9 +1285,12 @@ func (h *hist) randomOp() {
 	case r < 92:
 		h.drawImage()
 		h.checkState("DrawImage")
-	case r < 95:
+	case r < 94:
 		h.fitImage()
 		h.checkState("FitImage")
+	case r < 96:
+		h.fillStroke()
+		h.checkState("Fill/Stroke")
 	default:
 		h.canvasOp()
 		h.checkState("canvas operation")
@@ -1370,6 +1501,9 @@ func history(c *hc.Ctx) {
 		h.checkState("SetCoordSystem")
 	}
 	n := 5 + c.Intn(56)
+	if c.Tier != "quick" && c.Chance(0.25) {
+		n = 60 + c.Intn(140) // long histories in the thorough/search tiers
+	}
 	for i := 0; i < n; i++ {
 		h.randomOp()
 	}
@@ -1397,6 +1531,10 @@ func history(c *hc.Ctx) {
 		zs[l.z] = true
 	}
 	c.Count(fmt.Sprintf("distinct-z:%d", len(zs)))
+	for _, v := range h.verdicts {
+		c.Case(v, "!", "replay-order-spec")
+	}
+	c.Count(fmt.Sprintf("verdict-lines:%d", len(h.verdicts)))
 	line := strings.Join(h.line, " ")
 	c.Distinct(line)
 	if h.noCorr != "" {
@@ -1428,7 +1566,14 @@ func run(c *hc.Ctx) {
 	for i := uint64(0); i < (c.Seed%64)*3000017; i++ {
 		c.U64()
 	}
-	for i := 0; i < c.N; i++ {
-		history(c)
+	if c.Only == "" || c.Only == "history" {
+		for i := 0; i < c.N; i++ {
+			history(c)
+		}
+	}
+	if c.Only == "" || c.Only == "alias" {
+		for i := 0; i < c.N/2; i++ {
+			aliasProbe(c)
+		}
 	}
 }
